@@ -156,8 +156,9 @@ pub fn run(a: &Args) {
     // flush, so the reader is for a while in the state "data sequence finished, rows still buffered"
     {
         use crate::pngbuild::*;
-        for (w, h, nframes) in [(16u32, 2100u32, 3u32), (40, 900, 2), (16, 1936, 3), (16, 1930, 2), (31, 1026, 2), (8, 3650, 2)] {
-            let mut chunks = vec![ihdr(w, h, 8, 0, 0), actl_chunk(nframes, 0)];
+        // (last entry: the file carries one frame MORE than acTL announces; it must never be delivered, however the announced ones were read)
+        for (w, h, nframes, announced) in [(16u32, 2100u32, 3u32, 3u32), (40, 900, 2, 2), (16, 1936, 3, 3), (16, 1930, 2, 2), (31, 1026, 2, 2), (8, 3650, 2, 2), (16, 1936, 3, 2), (128, 255, 3, 2)] {
+            let mut chunks = vec![ihdr(w, h, 8, 0, 0), actl_chunk(announced, 0)];
             let mut seq = 0u32;
             for f in 0..nframes {
                 let mut raw = vec![];
@@ -168,9 +169,9 @@ pub fn run(a: &Args) {
             }
             chunks.push(Chunk::new(b"IEND", vec![]));
             let bytes = assemble(&chunks);
-            let name = format!("tall-compressible-{}x{}x{}", w, h, nframes);
+            let name = format!("tall-compressible-{}x{}x{}of{}", w, h, announced, nframes);
             let (end, reference) = decode_frames(&bytes, Opts::default(), 0, 0);
-            if reference.len() != nframes as usize {
+            if reference.len() != announced as usize {
                 o.violation(viol("reference-decode-incomplete", vec![("file", jstr(&name)), ("end", jstr(&end)), ("frames", reference.len().to_string())]));
                 continue;
             }
@@ -178,7 +179,7 @@ pub fn run(a: &Args) {
             let edge = (32768 / (w as usize + 1)).min(h as usize - 1);   // the first row that needs data beyond the inflater's first 32 KiB
             let ks: Vec<usize> = vec![0, 1, 64, h as usize / 2, edge - 1, edge, edge + 1, edge + 2, h as usize - 2, h as usize - 1, h as usize];
             for &k in &ks {
-                for tail in [vec![Op::Frame, Op::Frame, Op::Frame, Op::Frame], vec![Op::FrameInfo, Op::Row, Op::Row, Op::Frame, Op::Frame], vec![Op::ReadRow, Op::Frame, Op::FrameInfo, Op::Frame], vec![Op::IRow, Op::Getters, Op::Frame, Op::Row, Op::Frame]] {
+                for tail in [vec![Op::Frame, Op::Frame, Op::Frame, Op::Frame], vec![Op::Row, Op::Row, Op::FrameInfo, Op::Frame, Op::Frame, Op::Frame], vec![Op::FrameInfo, Op::Row, Op::Row, Op::Frame, Op::Frame], vec![Op::ReadRow, Op::Frame, Op::FrameInfo, Op::Frame], vec![Op::IRow, Op::Getters, Op::Frame, Op::Row, Op::Frame]] {
                   for prefix in [vec![], vec![Op::Frame], vec![Op::FrameInfo]] {
                     let mut ops: Vec<Op> = prefix.clone();
                     ops.extend((0..k).map(|i| if i % 3 == 0 { Op::Row } else if i % 3 == 1 { Op::ReadRow } else { Op::IRow }));
